@@ -464,6 +464,49 @@ def rule_class_rendering(rep: Report, repo: Repo, rule: str) -> None:
                         ok = zipped and nm[1][2] == 0 and val_t[2] == 1
                     rep.check(ok, rule, where(c), f"field({show(name_t)[:40]}, {show(val_t)[:40]})",
                               "a parameter name is paired with a type at another position", witness="cpp_member(f C int str) with params a b")
+        # the param/type fields of one parameter are emitted independently: `type` iff the doc has no ':type x:' of its own,
+        # `param` iff it has no ':param x:' (all four combinations of the two tests are body paths of the loop)
+        for e_ in o.effects:
+            if e_[0] != "loop":
+                continue
+            lp = o.state.loops.get(e_[1])
+            if lp is None or not any(x[0] == "emit" and x[1][2][2] == "field" for oc in lp["outcomes"] for x in oc["effects"]):
+                continue
+            combos = {}
+            for oc in lp["outcomes"]:
+                if oc["exit"] is not None and oc["exit"][0] == "break":
+                    continue
+                pin = tin = None
+                for cnd, val in oc["conds"]:
+                    if cnd[0] == "in" and cnd[2] == S("doc"):
+                        txt = show(cnd[1])
+                        if ":param " in txt:
+                            pin = val
+                        elif ":type " in txt:
+                            tin = val
+                kinds = []
+                for x in oc["effects"]:
+                    if x[0] == "emit" and x[1][2][2] == "field" and x[1][3]:
+                        lead = fl(x[1][3][0])
+                        if lead and is_const(lead[0]):
+                            kinds.append(str(lead[0][1]).split(" ")[0])
+                combos[(pin, tin)] = sorted(kinds)
+            problems = []
+            for (pin, tin), kinds in combos.items():
+                want = sorted((["param"] if pin is False else []) + (["type"] if tin is False else []))
+                if pin is None or tin is None:
+                    # one of the tests was short-circuited away on this path: the emitted fields must still be a subset of what both tests allow
+                    if ("type" in kinds and tin is True) or ("param" in kinds and pin is True):
+                        problems.append(f"doc has :param:={pin} :type:={tin} -> emits {kinds}")
+                    if tin is False and "type" not in kinds:
+                        problems.append(f"doc has :param:={pin} but no :type: -> the declared type is not shown (emits {kinds})")
+                    if pin is False and "param" not in kinds:
+                        problems.append(f"doc has no :param: (:type:={tin}) -> the parameter is not listed (emits {kinds})")
+                elif kinds != want:
+                    problems.append(f"doc has :param:={pin} :type:={tin} -> emits {kinds}, expected {want}")
+            rep.check(not problems, rule, where(c), f"path {i}: param/type field matrix {sorted((str(k), v) for k, v in combos.items())}"[:160],
+                      "the automatically generated :param:/:type: fields of a method depend on each other: " + "; ".join(problems)[:200],
+                      witness="cpp_member(f C int) with a doccomment that writes ':param x:' by hand but no ':type x:'")
     # Attribute
     c = "AttributeDocumentation"
     for i, o in enumerate(outcomes(repo, c)):
